@@ -36,6 +36,48 @@ def items_key(items, upto_first_err=True):
             break
     return out
 
+def varint_histories(rng, tier):
+    """null-codec files in which every kind of varint the reader decodes is (also) a MULTI-byte one: object count and byte
+    size of a block (>= 64 values / bytes), long and int values at the 7-bit boundaries, string / bytes / map-key lengths
+    >= 64, array and map block counts >= 64 and negative counts with byte sizes, enum and union indices.
+    -> [(history, ops, expected, 'null', block size)]; they are cut at EVERY offset and read through EVERY source below"""
+    N = G.Node
+    hx = C.hx
+    longs = [64, -65, 8191, 8192, -8193, 2**31 - 1, -2**31, 2**34, 2**41, 2**48, 2**55, 2**62, -2**63, 2**63 - 1, 1000000007, 63, -64, 0]
+    longs += [G.rand_int(rng, -2**63, 2**63 - 1) for _ in range(70 - len(longs))]
+    rng.shuffle(longs)
+    text = lambda n: hx("".join(rng.choice("abcdefghij -_") for _ in range(n)))
+    raw = lambda n: hx(bytes(rng.randrange(256) for _ in range(n)))
+    ll = lambda k: " ".join("(long %d)" % rng.choice(longs) for _ in range(k))
+    specs = [
+        ("long", [N("long")], ["(long %d)" % z for z in longs], 65536, False),
+        ("int-small-blocks", [N("int")], ["(int %d)" % z for z in (64, -65, 8192, 2**31 - 1, -2**31, 1000000007 % 2**31, 300)], 0, False),
+        ("record-string-long", [N("record", name="Rec", fields=[("name", 1), ("amount", 2)]), N("string"), N("long")],
+         ["(record (string %s) (long %d))" % (text(n), z) for n, z in ((5, 1000000007), (0, 64), (63, -65), (64, 8192), (130, 2**62), (200, -2**63))], 65536, False),
+        ("string", [N("string")], ["(string %s)" % text(n) for n in (64, 100, 128)], 65536, False),
+        ("array-long", [N("array", items=1), N("long")],
+         ["(array (blk 1 %s))" % ll(70), "(array (blk 0 %s) (blk 1 %s) (blk 0 %s))" % (ll(3), ll(20), ll(66)), "(array)", "(array (blk 1 %s) (blk 1 %s))" % (ll(1), ll(2))], 65536, True),
+        ("map-bytes", [N("map", values=1), N("bytes")],
+         ["(map (blk 1 (%s (bytes %s)) (%s (bytes %s))))" % (text(70), raw(64), text(3), raw(130)), "(map (blk 0 (%s (bytes %s))))" % (text(64), raw(0))], 65536, True),
+        ("enum-70", [N("enum", name="Big", symbols=["S%d" % i for i in range(70)])], ["(enum %d)" % i for i in (0, 63, 64, 69, 65)], 65536, False),
+        ("record-union-long", [N("record", name="Ru", fields=[("u", 1), ("n", 3)]), N("union", variants=[2, 3]), N("null"), N("long")],
+         ["(record (union 1 (long %d)) (long %d))" % (a, b) for a, b in ((64, -65), (2**40, 8192))] + ["(record (union 0 null) (long 1000000007))"], 8, False),
+    ]
+    out = []
+    for label, nodes, values, bsz, push in specs:
+        h = cont.History.__new__(cont.History)
+        h.rng, h.nodes, h.values, h.schema = rng, nodes, values, G.schema_sx(nodes)
+        h.prepare()
+        if push:        # pre-serialized: the block layout chosen above (negative counts + byte sizes) is what is in the file
+            ops = [("push", "(push %s 1)" % sp["enc"], [i]) for i, sp in enumerate(h.spec)]
+        else:
+            ops = [("ser", "(ser %s)" % sp["present"], [i]) for i, sp in enumerate(h.spec)]
+        ops.append(("into_inner", "into_inner"))
+        out.append((h, ops, list(range(len(values))), "null", bsz, label))
+    return out
+
+SOURCES = ["slice", "(chunks 1)", "(chunks 2)", "(chunks 3)", "(chunks 64)"]
+
 def run(ctx):
     rng = random.Random(ctx["seed"] * 1000003 + 17)
     nfiles = 36 if ctx["tier"] == "quick" else 1200
@@ -44,21 +86,36 @@ def run(ctx):
         h = cont.History(rng, n_values=rng.choice([1, 2, 4, 6]))
         h.prepare()
         ops, expected = cont.make_ops(rng, h, allow_fail=False, allow_push=False, end="into_inner")
-        hs.append((h, ops, expected, cont.CODECS[i % len(cont.CODECS)], rng.choice([0, 8, 65536])))
-    wl = [cont.cw_line(h, c, b, "vec", [], ops) for (h, ops, ex, c, b) in hs]
+        hs.append((h, ops, expected, cont.CODECS[i % len(cont.CODECS)], rng.choice([0, 8, 65536]), None))
+    hs.extend(varint_histories(rng, ctx["tier"]))
+    wl = [cont.cw_line(h, c, b, "vec", [], ops) for (h, ops, ex, c, b, _) in hs]
     wr = C.run_parallel(C.AVRODRIVE, wl)
     jsons = [C.unhex(C.parse_sx(r)[0][2]) for r in C.run_parallel(C.AVRODRIVE, ["freeze " + h.schema for h, *_ in hs])]
     cases, meta = [], []
+    violations0 = []
     file_json = {}
-    for fi, ((h, ops, expected, c, b), res) in enumerate(zip(hs, wr)):
+    for fi, ((h, ops, expected, c, b, directed), res) in enumerate(zip(hs, wr)):
         p = cont.parse_cw(res)
         if p is None or p.get("build_err"):
+            if directed:
+                violations0.append({"impl_case": wl[fi][:3000], "what": "writing the %s file failed" % directed, "impl": res[:300]})
             continue
         f = p["sink"]
         file_json[fi] = jsons[fi]
         exp = [h.spec[i]["dany"] for i in expected]
         ncalls = len(exp) + 4
         hdr = p["built"]
+        if directed:
+            if any(r != "ok" for r, _ in p["ops"]):
+                violations0.append({"impl_case": wl[fi][:3000], "what": "writing the %s file failed" % directed, "impl": res[:300]})
+                continue
+            # cut at EVERY offset behind the header (inside the header: every 3rd), read through EVERY source: the cut falls
+            # inside every multi-byte varint, and with chunked sources so do the refill boundaries
+            for k in list(range(0, hdr, 3)) + list(range(hdr, len(f))):
+                for mode in SOURCES + ["(chunks %d %d %d)" % (rng.randint(1, 9), rng.randint(1, 9), rng.randint(1, 9))]:
+                    cases.append("cr %s %s any %d" % (C.hx(f[:k]), mode, ncalls))
+                    meta.append((fi, "trunc", k, exp, mode))
+            continue
         # truncation at every offset (sampled when long)
         offs = range(len(f)) if len(f) < 400 else sorted(set(list(range(hdr - 20, min(len(f), hdr + 120))) + rng.sample(range(len(f)), 100)))
         for k in offs:
@@ -95,13 +152,13 @@ def run(ctx):
             cases.append("cr %s (chunks %d) any %d %d" % (C.hx(f), rng.choice([3, 16, 200]), ncalls, at))
             meta.append((fi, "ioerr", at, exp, "chunks"))
     res = C.run_parallel(C.AVRODRIVE, cases)
-    violations, diffs, samples, distinct = [], [], [], set()
+    violations, diffs, samples, distinct = violations0, [], [], set()
     mlines, midx = [], []
     orig_json = {}
     from collections import Counter
     dist = Counter()
     for i, (line, r, (fi, kind, k, exp, mode)) in enumerate(zip(cases, res, meta)):
-        h, ops, expected, c, b = hs[fi]
+        h, ops, expected, c, b, directed = hs[fi]
         pr = cont.parse_cr(r)
         distinct.add(line)
         if "crash" in pr or "(panic" in r:
@@ -163,7 +220,10 @@ def run(ctx):
     for k, v in dd["distribution"].items():
         dist[("block-" + k.split("/")[0], k.split("/")[1])] += v
     return {"evaluations": len(cases) + len(wl) + dd["evaluations"], "distinct_nontrivial": len(distinct) + len(dd["distinct"]), "notes": dd["notes"],
-            "rule": "valid files (12 codec settings) x every truncation offset x single-byte corruption at every offset x object count "
+            "rule": "null-codec files whose varints (block count / size, values, lengths, item counts incl. negative ones with byte sizes, "
+                    "enum / union indices) are multi-byte, cut at EVERY offset x {slice, 1, 2, 3, 64 bytes per fill_buf, a random plan}: only genuine "
+                    "values in order, then error / end of stream; same items as the reader model. "
+                    "valid files (12 codec settings) x every truncation offset x single-byte corruption at every offset x object count "
                     "lowered/raised x I/O error at a read call; slice and chunked readers. Required: no panic/hang, only genuine values in order "
                     "for truncation / sync / count damage, sync and count damage reported as an error, end of stream after an I/O error; "
                     "reader model vs crate on the null codec (items up to and including the first error); "
